@@ -256,7 +256,7 @@ HARNESSES = [
                          "_dtmin = minDtFrac*(tf - t0) with 2^-27 <= minDtFrac <= 1 (stated as _dtmin <= tf - t0 <= 2^27 * _dtmin)"],
             bounds={"iterations": "one loop iteration from an arbitrary state (inductive step)", "arithmetic": "Float64"},
             opts={"ob_timeout": 120.0, "branch_timeout_ms": 4000, "batch": False, "fast_first": False, "cvc5": False, "shards": 8}, budget={"quick": 420.0, "thorough": 2400.0}, validate=1,
-            params={"quick": [{"kind": "euler"}], "thorough": [{"kind": "euler", "deep": True}, {"kind": "rk4", "deep": True}]}),
+            params={"quick": [{"kind": "euler"}], "thorough": [{"kind": "euler", "deep": True}, {"kind": "rk4"}]}),
     Harness("C05.step_fp_unresolvable", step_fp, functions=_F,
             assumptions=["as C05.step_fp but WITHOUT assuming that the minimum step is resolvable at the current time"],
             bounds={"iterations": "one loop iteration", "arithmetic": "Float64"},
